@@ -95,7 +95,9 @@ def _ok_log(rng, clock):
         return ["check", _text(rng), True, rng.choice([None, _text(rng)]), clock.tick()]
     if r < 0.9:
         return ["attachment", _text(rng), "attachments/" + _ident(rng) + ".txt", rng.random() < 0.3, clock.tick()]
-    return ["url", _text(rng), "http://example.com/" + _ident(rng), clock.tick()]
+    url = "http://example.com/" + _ident(rng)
+    # lcc.log_url(url) without a description records the url itself as description
+    return ["url", url if rng.random() < 0.3 else _text(rng), url, clock.tick()]
 
 
 def _bad_log(rng, clock, mode):
